@@ -88,7 +88,8 @@ def gen_plan(rng, tier, index):
         kinds = ['select', 'interpolate'] if method == 'spearman' else \
             ['weighted_regress', 'select', 'interpolate', 'weighted_regress',
              'weighted_optimize' if rng.chance(0.1) else 'weighted_ridge']
-        plan.update({'method': method, 'models': [rng.pick(kinds) for _ in range(rng.randint(1, 2))]})
+        plan.update({'method': method, 'models': [rng.pick(kinds) for _ in range(rng.randint(1, 2))],
+                     'n_basis': rng.pick([3, 3, 4, 5, 6])})      # length of the chain of an interpolating / selecting model
         plan['cv_ceil'] = rng.pick(['given_off', 'given_off', 'none_on', 'given_on'])      # how crossval is asked about noise ceilings
         if rng.chance(0.15):
             plan['fit_fault'] = rng.randint(1, 5)      # the k-th fit (not the first) fails with LinAlgError
@@ -504,7 +505,7 @@ def _make_models(plan):
     from rsatoolbox.model.fitter import fit_regress, fit_regress_nn, fit_optimize, fit_select, fit_interpolate
     models, fitters = [], []
     for i, kind in enumerate(plan['models']):
-        basis = gen.build_model_rdms(plan['spec'], 2 if kind.startswith('weighted') else 3, salt='m%d' % i)
+        basis = gen.build_model_rdms(plan['spec'], 2 if kind.startswith('weighted') else plan.get('n_basis', 3), salt='m%d' % i)
         if kind.startswith('weighted'):
             m = ModelWeighted('m%d' % i, basis)
             f = {'weighted_regress': fit_regress, 'weighted_nn': fit_regress_nn, 'weighted_optimize': fit_optimize,
@@ -600,6 +601,34 @@ def _mode_G(ctx, plan):
                               f'{ {g: c for g, c in sorted(seen.items()) if c != 1} } (missing: {[g for g in range(n) if seen[g] == 0]})')
                 return
             ctx.probe('grid_cells_checked')
+    # groups of k: every admissible group size (at most half the groups per test set) gives n // k folds that put every
+    # group in exactly one test fold, sizes differing by at most one
+    for k in range(1, n // 2 + 1):
+        for gname, call, axis in (('sets_of_k_pattern', lambda: cvs.sets_of_k_pattern(pat, pattern_descriptor='uid', k=k, random=False), 'pattern'),
+                                  ('sets_of_k_rdm', lambda: cvs.sets_of_k_rdm(rdm, rdm_descriptor='uid', k=k, random=False), 'rdm')):
+            try:
+                res = call()
+            except Exception as e:
+                ctx.violation('folds_ref.raises', f'{gname}:grid:raises:{type(e).__name__}', f'{gname} with {n} groups and k={k} raised {type(e).__name__}: {e}')
+                return
+            train, test = res[0], res[1]
+            seen = Counter()
+            sizes = []
+            for tr, te in zip(train, test):
+                d_te = te[0].pattern_descriptors['uid'] if axis == 'pattern' else te[0].rdm_descriptors['uid']
+                d_tr = tr[0].pattern_descriptors['uid'] if axis == 'pattern' else tr[0].rdm_descriptors['uid']
+                te_g, tr_g = set(normlist(d_te)), set(normlist(d_tr))
+                seen.update(te_g)
+                sizes.append(len(te_g))
+                if te_g & tr_g or (te_g | tr_g) != set(range(n)):
+                    ctx.violation('folds_ref.partition', f'{gname}:grid:train-test', f'{gname}, {n} groups, groups of {k}: a fold has test groups {sorted(te_g)} and training groups {sorted(tr_g)}')
+                    return
+            if len(train) != n // k or any(seen[g] != 1 for g in range(n)) or max(sizes) - min(sizes) > 1:
+                ctx.violation('folds_ref.partition', f'{gname}:grid:not-a-partition',
+                              f'{gname}, {n} groups, groups of {k}: {len(train)} folds ({n // k} expected) with test sizes {sizes}; '
+                              f'missing from every test fold: {[g for g in range(n) if seen[g] == 0]}, in several: {[g for g in range(n) if seen[g] > 1]}')
+                return
+            ctx.probe('grid_cells_checked_of_k')
     ctx.nontrivial = True
     ctx.behaviour('G', n)
 
